@@ -66,7 +66,8 @@ func rulesC04(r *Run) {
 	r.Kind("R4", "K1")
 	m := planMachine(r, "R4")
 	ruleContJoin(r, "R4", m)
-	r.Expect("R4", 9)
+	ruleContChannelsMade(r, "R4")
+	r.Expect("R4", 12)
 
 	// ---- R5
 	r.Kind("R5", "K7")
@@ -1716,4 +1717,98 @@ func privateToDelegate(r *Run, key string, delegates map[string]bool) bool {
 		}
 	}
 	return false
+}
+
+// ruleContChannelsMade (mutation sweep, session 2): the result channels of the continuous checks exist before any state
+// uses them. Every state closes, ranges over or hands them on unconditionally (a nil channel makes `close` panic and a
+// range or send on it block for ever), so (a) each of the two entry states — Start and Recovery — assigns a made
+// channel to Data.contCheckResult on every path that goes on executing the plan, and (b) every sm.block value is built
+// with a made contCheckResult.
+func ruleContChannelsMade(r *Run, rule string) {
+	isMake := func(info *types.Info, e ast.Expr) bool {
+		c, ok := ast.Unparen(e).(*ast.CallExpr)
+		if !ok {
+			return false
+		}
+		id, ok := ast.Unparen(c.Fun).(*ast.Ident)
+		if !ok {
+			return false
+		}
+		b, ok := info.ObjectOf(id).(*types.Builtin)
+		return ok && b.Name() == "make"
+	}
+	for _, entry := range []string{"Start", "Recovery"} {
+		fn := r.fnByKey(rule, smKey(entry))
+		if fn == nil {
+			continue
+		}
+		fl, paths, ok := r.flowPaths(rule, fn)
+		if !ok {
+			continue
+		}
+		bad := ""
+		n := 0
+		for i := range paths {
+			p := &paths[i]
+			if p.Exit != ExitReturn {
+				continue
+			}
+			next := nextOf(fl, p)
+			if next == "End" || next == Terminal || (entry == "Recovery" && next == "Start") {
+				continue // End guards its drain with contCancel != nil; Start makes the channels itself
+			}
+			n++
+			made := false
+			for _, e := range p.Ev {
+				if e.Kind != EvAssign || len(e.Lhs) != len(e.Rhs) {
+					continue
+				}
+				for k, l := range e.Lhs {
+					if _, m := FieldPath(fl.Info, l, "sm.Data", "contCheckResult"); m {
+						made = isMake(fl.Info, e.Rhs[k])
+					}
+				}
+			}
+			if !made && bad == "" {
+				bad = "a path of " + entry + " goes on to " + next + " without making Data.contCheckResult (exit guard " + ExitGuardKey(fl, p) + "): PlanStartContChecks closes it or hands it to the continuous checks, End ranges over it — a nil channel panics the process or hangs the plan"
+			}
+		}
+		if n == 0 {
+			r.Unresolved(rule, entry+" path that goes on executing")
+			continue
+		}
+		r.Check(rule, "cont-channel-made:"+entry, fn.Decl.Pos(), bad == "", "%s", orOK(bad, "made on every path that goes on"))
+	}
+	pkg := r.P.Pkgs[pkgSM]
+	if pkg == nil {
+		return
+	}
+	nLit, badLit := 0, ""
+	var lpos token.Pos
+	for _, f := range pkg.Syntax {
+		if strings.HasSuffix(r.P.Fset.Position(f.Pos()).Filename, "_test.go") {
+			continue
+		}
+		ast.Inspect(f, func(x ast.Node) bool {
+			cl, ok := x.(*ast.CompositeLit)
+			if !ok {
+				return true
+			}
+			tv, ok := pkg.TypesInfo.Types[cl]
+			if !ok || ShortType(tv.Type) != "sm.block" {
+				return true
+			}
+			nLit++
+			v := keyValue(cl, "contCheckResult")
+			if (v == nil || !isMake(pkg.TypesInfo, v)) && badLit == "" {
+				badLit, lpos = "a block is built without a made contCheckResult: BlockStartContChecks closes it or hands it to the block's continuous checks, BlockEnd ranges over it", cl.Pos()
+			}
+			return true
+		})
+	}
+	if nLit == 0 {
+		r.Unresolved(rule, "sm.block literals")
+		return
+	}
+	r.Check(rule, "cont-channel-made:block-literals", lpos, badLit == "", "%s", orOK(badLit, "every sm.block literal makes its channel"))
 }
